@@ -7,7 +7,10 @@
      programs are their own derivative.  Every observation is validated by TLC (Trace_OpMachine, kind "deriv").
   B. Built-in operators with closed-form derivatives (harness/nlops.py): relational clause - central
      differences of the real operator at h, h/2, h/4 against op.derivative(x)(d), convergence relation decided
-     by TLC (Trace_Derivative).
+     by TLC (Trace_Derivative).  The same relation on HISTORIES of expression objects constructed directly with their
+     optional temporaries (OperatorComp tmp=, OperatorSum tmp_ran= / tmp_dom=; harness/nlops.py:history_recipes): the derivative
+     taken at x, evaluated (out-of-place and in place) AFTER in-place evaluations of the expression / the derivative / a
+     second derivative at another point, is still the derivative at x.
 """
 import json
 import os
@@ -158,6 +161,30 @@ def builtin_events(ctx):
         events.append(ev)
         meta.append((sig, opts, family))
         ctx.count([family, opts], True)
+    # ---- histories on expression objects built directly with their optional temporaries (OperatorComp tmp=, OperatorSum
+    # tmp_ran= / tmp_dom=): derivative at x, then the temporaries are used elsewhere, then the derivative is evaluated
+    nh = 0
+    for family, opts, fn in NL.history_recipes(ctx.tier):
+        sig = dict(opts)
+        sig.update({'part': 'builtin', 'class': family})
+        ev = {'cls': family, 'err': '', 'q1': 0, 'q2': 0, 'q3': 0, 'lin': True, 'domok': True, 'ranok': True}
+        try:
+            op, x, d, z = fn()
+        except Exception as ex:
+            notbuilt.append('%s %s (%s)' % (family, opts, type(ex).__name__))
+            continue
+        try:
+            errs, scale, D = NL.history_errors(op, x, d, z, opts['history'])
+            ev.update(q1=NL.quant(errs[0], scale), q2=NL.quant(errs[1], scale), q3=NL.quant(errs[2], scale),
+                      lin=bool(D.is_linear), domok=bool(D.domain == op.domain), ranok=bool(D.range == op.range))
+        except Exception as ex:
+            ev['err'] = type(ex).__name__
+            ev['msg'] = str(ex)[:160]
+        events.append(ev)
+        meta.append((sig, opts, family))
+        ctx.count([family, opts], opts['history'] != 'none')
+        nh += 1
+    ctx.extra['direct_expression_history_events'] = nh
     ctx.extra['recipes_not_constructed'] = notbuilt[:40]
     return events, meta
 
@@ -255,6 +282,21 @@ def replay(body):
     if body.get('signature', {}).get('part') == 'blockops':
         from ..extras import blockops
         return blockops.replay(body)
+    if d.get('stage') == 'builtin' and 'history' in d.get('options', {}):
+        for family, opts, fn in NL.history_recipes('thorough'):
+            if family == d['class'] and opts == d['options']:
+                try:
+                    op, x, dd, z = fn()
+                    errs, scale, D = NL.history_errors(op, x, dd, z, opts['history'])
+                    print('errors at h, h/2, h/4:', errs, 'scale', scale, 'linear flag', D.is_linear)
+                    bad = errs[1] > errs[0] / 3 + 1e-6 * scale or errs[2] > 1e-3 * scale or not D.is_linear
+                except Exception as ex:
+                    print('raised', type(ex).__name__, ex)
+                    bad = True
+                print('REPRODUCED' if bad else 'NOT-REPRODUCED')
+                return 1 if bad else 0
+        print('recipe not found')
+        return 2
     if d.get('stage') == 'builtin':
         for family, opts, fn in NL.recipes('thorough'):
             if family == d['class'] and opts == d['options']:
